@@ -318,7 +318,18 @@ func c20(p *Prog, r *Report) {
 		if theLookup != nil {
 			// the decrypted request comes from decryptOriginTokenRequest with the request's fields
 			k := s.Of(theLookup.Index).String()
-			r.Check(strings.Contains(k, "decryptOriginTokenRequest"), R4, "the padded origin is the one decrypted from this request", p.InstrPos(theLookup), "bound to decryptOriginTokenRequest's result", "lookup key "+clip(k, 300)+" does not come from decryptOriginTokenRequest")
+			// ... directly, or through an in-module helper that reaches it
+			fromDecrypt := strings.Contains(k, "decryptOriginTokenRequest")
+			if dec := p.Func("~/tokens/type3.decryptOriginTokenRequest"); dec != nil && !fromDecrypt {
+				for _, c := range sitesIn(ev, func(n string) bool { return strings.Contains(k, "call<"+n+">(") }) {
+					if f := c.Common().StaticCallee(); f != nil && InModule(f) {
+						if _, ok := p.Reach([]*ssa.Function{f}, InModule)[dec]; ok {
+							fromDecrypt = true
+						}
+					}
+				}
+			}
+			r.Check(fromDecrypt, R4, "the padded origin is the one decrypted from this request", p.InstrPos(theLookup), "bound to decryptOriginTokenRequest's result", "lookup key "+clip(k, 300)+" does not come from decryptOriginTokenRequest")
 			// every signing site is dominated by ok == true
 			var okVal ssa.Value
 			for _, u := range *theLookup.Referrers() {
